@@ -22,4 +22,12 @@ PROPS = {
         "floors": {"quick": {"evaluations": 10000, "distinct_nontrivial": 100, "files_compared": 5000}, "thorough": {"evaluations": 200000, "distinct_nontrivial": 200}},
         "assumptions": ["htyp version bits and the original len are not compared (to_write normalises them)", "file level comparison skipped (and counted) when the export contains an embedded marker"],
     },
+    "C04": {
+        "level": "exploration",
+        "quick": cfg(16, 40),
+        "thorough": cfg(16, 600),
+        "rule": "(a) streams larger than the reader capacity (small/mixed/huge messages, garbage, 1/3 with embedded markers of the same framing) parsed through LowMarkBufReader(low mark 65551, capacity low+4096 .. 512 KiB) over a scripted source (1-byte reads, powers of two +-1, random, runs of 1 then huge, 'exactly up to low mark', alternating) vs. one Cursor over the whole stream; (b) the same stream cut after j recognised messages vs. the tail of the full run; (c) the reader alone: random histories of fill_buf/consume/read/seek (Start/Current, forwards and backwards) against the model (data,pos) with low marks 1/7/100/4096/65551. Non-trivial = data longer than the capacity (>=1 compaction) ; distinct = (part, schedule class, capacity class, framing, embedded, message size class | low mark, seeks accepted/rejected/backward).",
+        "floors": {"quick": {"evaluations": 20000, "distinct_nontrivial": 500, "ab_chunked_runs": 5000, "c_back_seeks_accepted": 100000, "ab_suffix_runs": 5000}, "thorough": {"evaluations": 300000, "distinct_nontrivial": 1000}},
+        "assumptions": ["SeekFrom::End is rejected by design and not part of the model", "embedded markers are of the stream's own framing (the other framing's marker is removed: framing auto-detection is not position independent by design)", "sources never return errors"],
+    },
 }
